@@ -43,7 +43,7 @@ from enum import Enum
 import numpy as np
 
 from ._libtoasty import subsample, mid
-from .image import Image
+from .image import Image, get_format_vertical_parity_sign
 from .progress import progress_bar
 from .pyramid import Pos, tiles_at_depth
 
@@ -730,7 +730,7 @@ def sample_layer_filtered(
     from .pyramid import Pyramid
 
     p = Pyramid.new_toast_filtered(depth, tile_filter, coordsys=coordsys)
-    proc = ToastSampler(pio, sampler, False, format=format, coordsys=coordsys)
+    proc = ToastSampler(pio, sampler, False, coordsys=coordsys)
     p.visit_leaves(proc.visit_callback, parallel=parallel, cli_progress=cli_progress)
 
 
@@ -776,7 +776,11 @@ class ToastSampler(object):
         self._clobber = clobber
         self._format = format
         self._coordsys = coordsys
-        self._invert_into_tiles = pio.get_default_vertical_parity_sign() == 1
+
+        # The rows must be laid out for the format that the tiles are actually
+        # stored in, which is `format` if the caller overrides the default.
+        tile_format = format if format is not None else pio.get_default_format()
+        self._invert_into_tiles = get_format_vertical_parity_sign(tile_format) == 1
 
     def visit_callback(self, pos, tile):
         if tile is None:
